@@ -6,7 +6,6 @@ From GinV Require Import Lib.Out Lib.PyStr Model.SelectorMap Model.Values Model.
 Import ListNotations.
 Open Scope string_scope.
 Open Scope list_scope.
-Set Default Timeout 60.
 
 (* ================================================================== *)
 (* an induction principle for the nested inductive [value]             *)
@@ -797,3 +796,76 @@ Proof.
   destruct (C05_macros_hook_spec s M _ _ _ _ _ Hc _ Hk Hin) as [Ha He].
   destruct Hbad as [Hb|Hb]; congruence.
 Qed.
+
+(* ================================================================== *)
+(* C05, general form: a use evaluates to whatever the CURRENTLY bound   *)
+(* value evaluates to, under the scope named after the macro            *)
+(* ================================================================== *)
+Lemma macro_call_gen : forall f s v, lookup_sel s "gin.macro" = Some macro_cfg ->
+  get_bindings_for (config s) (current_scope s) "gin.macro" true = [("value", v)] ->
+  call (S f) s "gin.macro" [] [] =
+  eval f (oper_update s (scope_str (current_scope s), "gin.macro") [("value", v)]) v.
+Proof.
+  intros f s v Hl Hb. rewrite call_S, Hl.
+  change (existsb is_req (skipn (List.length (supplied_positional_names (c_sig macro_cfg) [])) [])) with false.
+  cbv iota zeta. rewrite prep_bindings_macro_nocall, Hb.
+  rewrite go_kw_cons.
+  change (prep_operative macro_cfg [] [] [("value", v)]) with [("value", v)].
+  destruct (eval f (oper_update s (scope_str (current_scope s), "gin.macro") [("value", v)]) v) as [s1 [x'|e]];
+    reflexivity.
+Qed.
+
+Theorem C05_use_evaluates_bound_value_gen : forall f s sc v, sc <> [] -> scope_valid sc = true ->
+  lookup_sel s "gin.macro" = Some macro_cfg ->
+  get_bindings_for (config s) sc "gin.macro" true = [("value", v)] ->
+  eval (S (S (S f))) s (VRef sc "gin.macro" true) =
+  (let '(s2, r) := eval f (oper_update (set_scopes (sc :: scopes s) s) (scope_str sc, "gin.macro") [("value", v)]) v in
+   (set_scopes (tl (scopes s2)) s2, r)).
+Proof.
+  intros f s sc v Hne Hv Hl Hb. rewrite eval_VRef_true, call_handle_S.
+  destruct sc as [|x sc]; [contradiction|]. cbv zeta. rewrite Hv. simpl negb. cbv iota.
+  rewrite (macro_call_gen f (set_scopes ((x :: sc) :: scopes s) s) v Hl Hb). reflexivity.
+Qed.
+
+(* late binding, as independence from history: two states that agree on what is currently bound to the macro (and
+   both know gin.macro) give the same value, whatever else differs (operative record, call log, lock, ...) *)
+Corollary C05_late_binding_history_independent : forall f s1 s2 name v,
+  atomic v -> scope_valid (split_slash name) = true ->
+  lookup_sel s1 "gin.macro" = Some macro_cfg -> lookup_sel s2 "gin.macro" = Some macro_cfg ->
+  get_bindings_for (config s1) (split_slash name) "gin.macro" true = [("value", v)] ->
+  get_bindings_for (config s2) (split_slash name) "gin.macro" true = [("value", v)] ->
+  snd (eval (S (S (S (S f)))) s1 (VRef (split_slash name) "gin.macro" true)) = Ok v /\
+  snd (eval (S (S (S (S f)))) s2 (VRef (split_slash name) "gin.macro" true)) = Ok v.
+Proof.
+  intros f s1 s2 name v Ha Hv H1 H2 B1 B2.
+  rewrite (macro_use_eval_exact f s1 _ v Ha (split_slash_nonempty name) Hv H1 B1).
+  rewrite (macro_use_eval_exact f s2 _ v Ha (split_slash_nonempty name) Hv H2 B2). split; reflexivity.
+Qed.
+
+Print Assumptions C05_use_is_reference.
+Print Assumptions C05_resolve_ignores_store.
+Print Assumptions C05_constant_unique.
+Print Assumptions C05_constant_ambiguous.
+Print Assumptions C05_definition_is_binding.
+Print Assumptions C05_use_evaluates_to_current_binding.
+Print Assumptions C05_use_evaluates_to_current_binding_exact.
+Print Assumptions C05_use_evaluates_bound_value_gen.
+Print Assumptions C05_late_binding_history_independent.
+Print Assumptions C05_unbound_macro_raises.
+Print Assumptions C05_macros_hook_spec.
+Print Assumptions C05_macros_hook_iff.
+Print Assumptions C05_finalize_rejects_bad_macro.
+Print Assumptions C07_oper_update_get.
+Print Assumptions C07_oper_update_other.
+Print Assumptions C07_configurable_defaults_spec.
+Print Assumptions C07_configurable_defaults_spec_strong.
+Print Assumptions C07_prep_operative_spec.
+Print Assumptions C07_prep_operative_spec_strong.
+Print Assumptions C07_call_contribution.
+Print Assumptions C07_denied_default_not_recorded.
+Print Assumptions C07_not_allowed_default_not_recorded.
+Print Assumptions C07_call_records_section.
+Print Assumptions C07_call_records_section_gen.
+Print Assumptions C07_sections_only_grow.
+Print Assumptions C07_non_call_ops_keep_operative.
+Print Assumptions C07_never_called_empty_init.
